@@ -76,6 +76,11 @@ pub fn run_c06(a: &Args) {
         let secret = if rng.chance(2, 3) { Some(b"secret".to_vec()) } else { None };
         plan.session_cookie = session_cookie_payload(&mut rng, &plan.host, plan.port);
         plan.routing = routing_steps(&mut rng);
+        // Encryption Responses that are not valid, also on connections a cookie has already vouched for
+        if n % 5 == 3 { plan.enc = rng.pick(&[EncKind::WrongToken, EncKind::StaleToken, EncKind::OtherKey, EncKind::Garbage, EncKind::GarbageToken, EncKind::SecretLen(0), EncKind::SecretLen(15), EncKind::SecretLen(17), EncKind::SecretLen(32), EncKind::TokenPrefix(0), EncKind::TokenPrefix(1), EncKind::TokenPrefix(31), EncKind::TokenPrefix(33)]).clone(); }
+        if plan.intent == 3 && secret.is_some() && rng.chance(1, 2) {
+            plan.auth_cookie = Some(oracle::sign(b"secret", &cookie_json(now(), "192.0.2.77:9", "CookieName", 0xc00c1e, None, serde_json::json!([]))));
+        }
         let legal = render(&plan, secret.is_some());
         // walk the legal script, deviating with probability that grows along the way
         let mut steps = vec![];
@@ -139,7 +144,9 @@ pub fn run_c01(a: &Args) {
                     4 => (now(), "203.0.113.77:4000".to_string(), s.clone()),
                     _ => (now(), sc.client_addr.to_string(), b"not the configured secret".to_vec()),
                 };
-                let j = cookie_json(ts, &addr, "CookieName", 0xc00c1e, None, serde_json::json!([]));
+                // the cookie's identity overlaps the claim in every way: other name and id, same name only, same id only
+                let (cname, cid): (String, u128) = match rng.below(4) { 0 => (plan.claimed_name.clone(), 0xc00c1e), 1 => ("CookieName".into(), plan.claimed_uuid), 2 => (plan.claimed_name.clone(), plan.claimed_uuid), _ => ("CookieName".into(), 0xc00c1e) };
+                let j = cookie_json(ts, &addr, &cname, cid, None, serde_json::json!([]));
                 plan.auth_cookie = Some(oracle::sign(&key, &j));
             }
         }
@@ -164,6 +171,7 @@ pub fn run_c02(a: &Args) {
     let mut rng = Rng::new(a.seed);
     let mut cases = vec![];
     let mut n = 0;
+    let mut slow_done = 0;
     while cases.len() < a.cases {
         n += 1;
         let mut plan = gen_plan(&mut rng);
@@ -184,7 +192,12 @@ pub fn run_c02(a: &Args) {
         let ip_same = (tamper && sc.expiry == 21600) || !rng.chance(1, 5);
         let addr = if ip_same { format!("{}", std::net::SocketAddr::new(sc.client_addr.ip(), 9)) } else { rng.pick(&["10.9.9.9:1", "[2001:db8::99]:2", "127.0.0.2:25564"]).to_string() };
         let props = if rng.chance(1, 2) { serde_json::json!([]) } else { serde_json::json!([{"name": "textures", "value": "dg==", "signature": null}]) };
-        let valid = oracle::sign(&key, &cookie_json(ts, &addr, "CookieName", 0xc00c1e + u128::from(rng.below(2)), Some("srv-0"), props));
+        let (cname, cid): (String, u128) = match rng.below(5) { 0 => (plan.claimed_name.clone(), 0xc00c1e), 1 => ("CookieName".into(), plan.claimed_uuid), 2 => (plan.claimed_name.clone(), plan.claimed_uuid), _ => ("CookieName".into(), 0xc00c1e + u128::from(rng.below(2))) };
+        // a client that holds back its cookie: valid when the connection opened, expired when presented
+        let slow = n % 16 == 10 && slow_done < 6 && secret.is_some() && plan.intent == 3;
+        if slow { slow_done += 1; sc.expiry = 60; }
+        let (ts, addr) = if slow { (now() - 59, format!("{}", std::net::SocketAddr::new(sc.client_addr.ip(), 9))) } else { (ts, addr) };
+        let valid = oracle::sign(&key, &cookie_json(ts, &addr, &cname, cid, Some("srv-0"), props));
         let (class, payload): (&str, Option<Vec<u8>>) = match n % 16 {
             0 => ("absent", None),
             1 => ("empty", Some(vec![])),
@@ -204,8 +217,10 @@ pub fn run_c02(a: &Args) {
             15 => { let mut v = valid.clone(); v.insert(32, b' '); ("byte-inserted-after-tag", Some(v)) }
             _ => ("as-generated", Some(valid.clone())),
         };
+        let (class, payload) = if slow { ("held-back-until-expired", Some(valid.clone())) } else { (class, payload) };
         plan.auth_cookie = payload;
         sc.steps = render(&plan, secret.is_some());
+        if slow { sc.steps.insert(3, Step::RealSleep(2600)); }
         let o = exec(&sc);
         let f = facts(&sc, &plan, true);
         let cv = oracle::cookie_view(&sc, plan.intent, f.presented_auth.as_deref(), o.wall_before);
